@@ -207,6 +207,15 @@ func TestRun(t *testing.T) {
 		}
 		rec.Eval(fmt.Sprintf("size-%d", s))
 	}
+	// exponents outside 0-7 have no size: "arguments outside that domain are refused ... instead of being wrapped" - a size
+	// accessor that answers with the size of some other exponent is wrapping
+	for s := 8; s <= 255; s++ {
+		if got := blockwise.SZX(s).Size(); got > 0 {
+			report(bad{"C19/size/out-of-domain-exponent-has-a-size", fmt.Sprintf("SZX(%d).Size() = %d: no exponent outside 0-7 has a block size", s, got), s})
+		}
+		rec.Eval(fmt.Sprintf("size-%d", s))
+	}
+	rec.Count("size_checks_out_of_domain", 248)
 
 	// ---- BERT sizing observed through Do
 	rnd := rand.New(rand.NewSource(seed ^ 0x19))
